@@ -32,6 +32,13 @@ theorem fixedPoint_error (P : ℕ) (x : Lattigo.CKKS.SD) (scale : Lattigo.CKKS.D
   Lattigo.CKKS.fixedPoint_error P x scale hP hx hs
 example : Lattigo.CKKS.fixedPoint 53 ⟨true, ⟨5, -3⟩⟩ ⟨1, 10⟩ = -640 := by decide +kernel
 
+/-- conjugate-invariant ring: the imaginary parts of the inputs do not influence the encoded plaintext
+    (tie `ckks encpoly`: the harness feeds inputs with non-zero imaginary parts). -/
+theorem encodePoly_conjInv_discards_imag (N slots : ℕ) (re im im' : List ℤ) :
+    encodePoly N true slots re im = encodePoly N true slots re im' := rfl
+example : encodePoly 8 true 2 [3, -5] [7, 7] = [3, 0, 0, 0, -5, 0, 0, 0] ∧
+    encodePoly 8 false 2 [3, -5] [7, 9] = [3, 0, -5, 0, 7, 0, 9, 0] := by decide
+
 /-- the rounding is to nearest, half away from zero (`trunc(x ± 1/2)`). -/
 theorem roundHalfAway_nearest (num : ℤ) (den : ℕ) (hd : 0 < den) :
     |(roundHalfAway num den : ℚ) - (num : ℚ) / den| ≤ 1 / 2 := roundHalfAway_spec num den hd
@@ -80,5 +87,6 @@ end Lattigo.Props.C07CKKS
 #print axioms Lattigo.Props.C07CKKS.orbit_injective
 #print axioms Lattigo.Props.C07CKKS.rotGroup_nodup
 #print axioms Lattigo.Props.C07CKKS.five_order
+#print axioms Lattigo.Props.C07CKKS.encodePoly_conjInv_discards_imag
 #print axioms Lattigo.Props.C07CKKS.fixedPoint_error
 #print axioms Lattigo.Props.C07CKKS.bitRev_perm
